@@ -15,7 +15,7 @@ def main(tier):
     try:
         pipeline.mc_run(rep, "Signature", pipeline.write_cfg(tmp, "s.cfg", CFG), label="binding rule over all small signatures x calls", dump=False, acts=False, workers=8)
         rep.mark("mc")
-        events = D.run_all(None)
+        events = D.run_all(None) + D.run_deliver(None)
         rep.mark("drive")
         scnp = os.path.join(tmp, "st.json")
         with open(scnp, "w") as f:
@@ -31,11 +31,11 @@ def main(tier):
         rep.add_events(len(events), distinct, [events[0], events[3], events[-1]])
         rep.coverage.update({"methods": sum(1 for e in events if e["kind"] == "sig"), "calls": sum(1 for e in events if e["kind"] == "call"),
                              "judge_antecedents": res["ante"], "exhaustive": True})
-        for k in ("sigs", "accepted", "rejected", "nested"):
+        for k in ("sigs", "accepted", "rejected", "nested", "delivered", "overflowed"):
             if not res["ante"].get(k):
                 raise tla.MachineryError(f"judge antecedent {k} never true")
         rep.assumptions += ["the advertised signature is what inspect.signature reports", "advertised defaults of nested-attribute keywords are documentation only (they are not passed on when omitted): "
-                            "only real parameters are checked for their defaults", "a spy replaces the implementation bound in the generated wrapper's globals"]
+                            "only real parameters are checked for their defaults", "a spy replaces the implementation bound in the generated wrapper's globals (acceptance phase); the delivery phase runs the real implementation and looks for the value in the nested object"]
         return rep.finish(rule="every generated method (constructor, 3 top-level, 4 scalar and 4 element helpers per attribute) of four classes (nested spec, list/dict/KeyedList of spec, "
                                "overflow class, init=False and private attributes): minimal call, each advertised parameter, each pair, too many positionals, and unadvertised names")
     finally:
